@@ -13,7 +13,8 @@
 (***************************************************************************)
 EXTENDS EFOptimizer, Json
 
-CONSTANT Tier
+CONSTANT Tier,
+         Seed      \* >= 1: shifts which part of a sampled family is taken (1 = the default sample)
 VARIABLE row
 vars == <<row>>
 
@@ -46,7 +47,7 @@ Next ==
         /\ \E k2 \in 1..NK : row' = MkRow("flow", Flow!Prog(row.sh, row.k1, k2, 1))
      \/ /\ row.k = "f0" /\ row.sh = "nest2"
         /\ \E k2 \in 1..NK, k3 \in 1..NK :
-             /\ (Tier = "thorough" \/ (row.k1 + 3 * k2 + 5 * k3) % 23 = 0)
+             /\ (Tier = "thorough" \/ (row.k1 + 3 * k2 + 5 * k3 + Seed - 1) % 23 = 0)
              /\ row' = MkRow("flow3", Flow!Prog("nest3", row.k1, k2, k3))
      \/ /\ row.k = "s0"
         /\ \E a \in 1..3, b \in 1..3, place \in 1..6, before \in BOOLEAN :
@@ -60,7 +61,7 @@ Next ==
      \/ /\ row.k = "o0"
         /\ \E m1 \in 0..Opt!NC, k2 \in 1..NK, m2 \in 0..Opt!NC, sh \in {"nest2", "seq2", "first"} :
              /\ (m1 > 0 => Opt!UsesC(row.k1)) /\ (m2 > 0 => Opt!UsesC(k2)) /\ (m1 > 0 \/ m2 > 0)
-             /\ (row.k1 + 3 * m1 + 5 * k2 + 7 * m2) % (IF Tier = "thorough" THEN 3 ELSE 29) = 0
+             /\ (row.k1 + 3 * m1 + 5 * k2 + 7 * m2 + Seed - 1) % (IF Tier = "thorough" THEN 3 ELSE 29) = 0
              /\ row' = MkRow("opt", Opt!Prog(sh, row.k1, m1, k2, m2))
 
 Spec == Init /\ [][Next]_vars
